@@ -42,7 +42,7 @@ class ColEngine:
         if key in self.summ:
             return self.summ[key]
         if key in self._active or depth > 8 or isinstance(f.node, ast.Lambda):
-            return {"must_write": {}, "may_top": {a.arg: True for a in f.params}, "ret_table": None, "ret_keys": None, "ret_param": None}
+            return {"must_write": {}, "ret_top": True, "may_top": {a.arg: True for a in f.params}, "ret_table": None, "ret_keys": None, "ret_param": None}
         self._active.add(key)
         fl = _ColFlow(self, f, flags=dict(known), record=None, depth=depth)
         init = {"tabs": {a: frozenset() for a in self.table_params(f)}, "dicts": {}, "top": set()}
@@ -56,7 +56,7 @@ class ColEngine:
         rparam = (rp.pop() if len(rp) == 1 and len(fl.ret_params) == fl.n_returns else None)
         if rparam == "<new>":
             rparam = None
-        res = {"must_write": mw, "may_top": {a: any(a in st_.get("top", ()) for st_ in exits) for a in self.table_params(f)},
+        res = {"must_write": mw, "ret_top": fl.ret_top, "may_top": {a: any(a in st_.get("top", ()) for st_ in exits) for a in self.table_params(f)},
                "ret_table": frozenset.intersection(*fl.ret_tables) if fl.ret_tables and len(fl.ret_tables) == fl.n_returns else None,
                "ret_keys": frozenset.intersection(*fl.ret_dicts) if fl.ret_dicts and len(fl.ret_dicts) == fl.n_returns else None,
                "ret_param": rparam}
@@ -110,6 +110,7 @@ class _ColFlow(Flow):
         self.ret_dicts: List[FrozenSet[str]] = []
         self.ret_params: List[str] = []
         self.n_returns = 0
+        self.ret_top = False
 
     def copy(self, s):
         return {"tabs": dict(s["tabs"]), "dicts": dict(s["dicts"]), "top": set(s.get("top", ())), "acc": dict(s.get("acc", {}))}
@@ -146,6 +147,8 @@ class _ColFlow(Flow):
                 continue                          # pt.col[...] / pt.loc[...] / pt.update / a ProblemTable method
             if isinstance(par, (ast.Return, ast.Compare)):
                 continue
+            if isinstance(par, ast.Subscript) and par.value is x:
+                continue                          # pt[[...]] / pt[label]: a read (slice copy) of the table
             if isinstance(par, ast.Tuple) and isinstance(parent.get(id(par)), ast.Return):
                 continue
             if isinstance(par, ast.Call) and (x in par.args or any(k.value is x for k in par.keywords)):
@@ -274,6 +277,20 @@ class _ColFlow(Flow):
             return out
         return None
 
+    def _call_ret_top(self, e: ast.AST, s) -> bool:
+        """does the table produced by this call possibly hold columns the analysis has not seen being written?"""
+        if not isinstance(e, ast.Call):
+            return False
+        for tg in self.eng.r.resolve_call(self.f, e):
+            if isinstance(tg, FuncInfo) and not isinstance(tg.node, ast.Lambda):
+                sm = self.eng.summarise(tg, self.eng.call_context(self, tg, e, s), self.depth + 1)
+                if sm.get("ret_top"):
+                    return True
+                rp = sm.get("ret_param")
+                if rp is not None and sm.get("may_top", {}).get(rp):
+                    return True
+        return False
+
     def table_var(self, e: ast.AST, s) -> Optional[str]:
         return e.id if isinstance(e, ast.Name) and e.id in s["tabs"] else None
 
@@ -349,7 +366,10 @@ class _ColFlow(Flow):
         s = self.copy(s)
         self.reads(st.value if isinstance(st, (ast.Assign, ast.AugAssign, ast.AnnAssign, ast.Expr, ast.Return)) and getattr(st, "value", None) is not None else st, s)
         self.effects(st, s)
-        self.escapes(st.value if isinstance(st, (ast.Assign, ast.AugAssign, ast.AnnAssign, ast.Expr, ast.Return)) and getattr(st, "value", None) is not None else st, s)
+        if not isinstance(st, ast.Return):
+            self.escapes(st.value if isinstance(st, (ast.Assign, ast.AugAssign, ast.AnnAssign, ast.Expr)) and getattr(st, "value", None) is not None else st, s)
+        elif st.value is not None and not isinstance(st.value, (ast.Name, ast.Tuple)):
+            self.escapes(st.value, s)
         if isinstance(st, (ast.Assign, ast.AugAssign)):
             tgs = st.targets if isinstance(st, ast.Assign) else [st.target]
             for t in tgs:
@@ -383,6 +403,9 @@ class _ColFlow(Flow):
                     newtab = self.table_expr(v, s) if isinstance(v, ast.Call) else None
                     if newtab is not None:
                         s["tabs"][t.id] = frozenset(newtab)
+                        s["top"].discard(t.id)
+                        if self._call_ret_top(v, s):
+                            s["top"].add(t.id)
                     else:
                         ks = self.dict_keys(v, s)
                         if ks is not None and not isinstance(v, ast.Name):
@@ -392,12 +415,16 @@ class _ColFlow(Flow):
                     nt = self.table_expr(st.value, s)
                     if nt is not None and t.elts and isinstance(t.elts[0], ast.Name):
                         s["tabs"][t.elts[0].id] = frozenset(nt)
+                        if self._call_ret_top(st.value, s):
+                            s["top"].add(t.elts[0].id)
         if isinstance(st, ast.Return):
             self.n_returns += 1
             v = st.value
             v0 = v.elts[0] if isinstance(v, ast.Tuple) and v.elts else v
             te = self.table_expr(v0, s) if v0 is not None else None
             if te is not None:
+                if (isinstance(v0, ast.Name) and v0.id in s.get("top", ())) or self._call_ret_top(v0, s):
+                    self.ret_top = True
                 self.ret_tables.append(te)
                 if isinstance(v0, ast.Name) and v0.id in self.eng.table_params(self.f):
                     self.ret_params.append(v0.id)
